@@ -176,21 +176,34 @@ def check_enums(ctx, db):
         k = ('BendType', c['n'])
         ctx.check(me.get(k, 0) >= 1, 'R-EXHAUST', 'FlexPath::element_center/BendType::%s' % c['n'], ec.loc(), 'BendType::%s is handled by the centre-line builder' % c['n'])
     g = db.fn('gdstk::FlexPath::to_gds')
-    tables.check_exhaustive(ctx, db, g, 'gdstk::EndType', frozen_default={('gdstk::FlexPath::to_gds', 0): ['HalfWidth', 'Extended', 'Round', 'Smooth']})
     o = db.fn('gdstk::FlexPath::to_oas')
     tables.check_exhaustive(ctx, db, o, 'gdstk::EndType', frozen_default={('gdstk::FlexPath::to_oas', 0): ['Extended', 'HalfWidth']})
-    # sibling PATHTYPE tables FlexPath vs RobustPath
-    def pathtype_table(f):
-        sw = tables.switches_on(f, 'EndType')[0]
-        vals = {c['v']: c['n'] for c in db.enum('gdstk::EndType')['consts']}
-        t = {}
-        for labels, stmts, top in tables.switch_arms(sw):
-            v = next((x.child('rhs').cv for s in stmts for x in s.walk() if is_assign(x)), None)
-            for l in labels:
-                t[vals.get(l, l)] = v
-        return t
-    a, b = pathtype_table(g), pathtype_table(db.fn('gdstk::RobustPath::to_gds'))
-    ctx.check(a == b and a.get('default') == 0, 'R-TABLE', 'EndType->PATHTYPE/FlexPath~RobustPath', g.loc(), 'both path writers map end types to the same PATHTYPE codes %s' % a, 'PATHTYPE tables differ: %s vs %s' % (a, b))
+    # PATHTYPE tables (evaluated per enumerator, whatever the form of the mapping): FlexPath, RobustPath and the format agree
+    a, b = pathtype_table(db, g), pathtype_table(db, db.fn('gdstk::RobustPath::to_gds'))
+    ctx.explored['valuations'] += len(a) + len(b)
+    ctx.check(a == PATHTYPE_SPEC, 'R-TABLE', 'EndType->PATHTYPE/FlexPath', g.loc(), 'FlexPath::to_gds writes PATHTYPE %s' % a, 'FlexPath::to_gds writes PATHTYPE %s; the format (and read_gds) expect %s' % (a, PATHTYPE_SPEC))
+    ctx.check(a == b, 'R-TABLE', 'EndType->PATHTYPE/FlexPath~RobustPath', g.loc(), 'both path writers map end types to the same PATHTYPE codes %s' % a, 'PATHTYPE tables differ: %s vs %s' % (a, b))
+
+
+# GDSII PATHTYPE: 0 square ends flush with the end points, 1 round, 2 square extended by half the width, 4 explicit extensions
+PATHTYPE_SPEC = {'Flush': 0, 'Round': 1, 'HalfWidth': 2, 'Extended': 4, 'Smooth': 1, 'Function': 0}
+
+
+def pathtype_table(db, f):
+    """EndType enumerator -> the value the writer places after the PATHTYPE header (0x2102), obtained by evaluating the
+    writer's computation of that value for every enumerator (sa/minieval.value_at): a switch, an if chain, a conditional
+    expression or a helper function give the same table."""
+    from .. import minieval
+    site = None
+    for il in f.walk():
+        if il.k == 'InitListExpr':
+            cs = [c for c in il.c if c is not None]
+            for i, c in enumerate(cs[:-1]):
+                if c.cv == 0x2102:
+                    site = cs[i + 1]
+    if site is None:
+        raise AnalysisBroken('%s: no PATHTYPE header (0x2102) in a record buffer' % f.qn)
+    return {e['n']: minieval.value_at(db, site, typed={'EndType': e['v']}) for e in db.enum('gdstk::EndType')['consts']}
 
 
 def check_bounds(ctx, db):
